@@ -813,6 +813,30 @@ func (g *Gen) modifiedRefs(tag string) ([]string, error) {
 			return nil, err
 		}
 		if v.ref != "" {
+			// only heap tags that can hold cells of this location are affected
+			locTags := map[string]bool{}
+			if sel, ok := x.(*ESel); ok && v.ty.Kind == "go" {
+				if bv, err := env.eval(sel.X); err == nil && bv.ty.Kind == "go" {
+					base, _ := derefType(bv.ty.Go)
+					if stt, ok := base.Underlying().(*types.Struct); ok {
+						for i := 0; i < stt.NumFields(); i++ {
+							if stt.Field(i).Name() == sel.F {
+								if _, isS := stt.Field(i).Type().Underlying().(*types.Struct); isS {
+									g.collectElemTags(stt.Field(i).Type(), locTags)
+								} else {
+									locTags[g.fieldTag(base, i)] = true
+								}
+							}
+						}
+					}
+				}
+			}
+			if len(locTags) == 0 && v.ty.Kind == "go" {
+				g.collectElemTags(v.ty.Go, locTags)
+			}
+			if !locTags[tag] {
+				continue
+			}
 			// any cell at or below v.ref
 			out = append(out, fmt.Sprintf("(not (= r %s))", v.ref))
 			if _, isStruct := v.ty.Go.Underlying().(*types.Struct); isStruct {
